@@ -5,10 +5,16 @@ Require Extraction.
 Require Import ExtrOcamlBasic.
 Require Import GM.model.Base GM.model.Util GM.model.UtilI GM.model.HtmlDecode.
 Require Import GM.model.AstHeap GM.model.AstSpec.
+Require Import GM.model.Reader GM.model.ReaderI.
 Extraction Language OCaml.
 Extraction "model.ml"
   IsPunct IsSpace EscapeHTML URLEscape UnescapePunctuations ResolveNumericReferences ResolveEntityNames
   TrimLeftSpace TrimRightSpace DoFullUnicodeCaseFolding ReplaceSpaces ToLinkReference ToRune
   html_decode valid_utf8 decode_rune encode_rune
   bytes_hash bf_empty bf_add bf_contains bf_extend
-  empty_heap step empty_forest spec_step legal walk walk_spec head_opt last_opt.
+  empty_heap step empty_forest spec_step legal walk walk_spec head_opt last_opt
+  new_reader r_reset_position r_peek RPeekLine r_line_offset r_advance r_advance_line r_set_padding r_set_position
+  r_advance_and_set_padding r_preceding RSkipBlankLines RSkipSpaces RReadRune RFindClosure r_value r_position
+  new_block_reader b_reset_position b_peek b_peek_line b_line_offset b_advance b_advance_line b_set_padding b_set_position
+  b_advance_and_set_padding b_preceding BSkipBlankLines BSkipSpaces BReadRune BFindClosure b_value b_position
+  seg_value SegTrimRightSpace SegTrimLeftSpace seg_between.
